@@ -10,3 +10,4 @@ import BufrProps.C02
 #print axioms Bufr.C02.C02_equal_strings_same_octets
 #print axioms Bufr.C02.C02_static_compressed
 #print axioms Bufr.C02.C02_position
+#print axioms Bufr.C02.C02_ieee_column
